@@ -620,6 +620,32 @@ def check_c04(tier, seed, log=print):
                               key='nonutf8|%s|%d' % (corpus[i].origin, li))
             elif f == '0' and 'nonutf8' not in c.err_classes():
                 pass  # rejected for another reason
+    # the acceptance side, position by position: a str-mode definition with a pattern that can match invalid UTF-8 in a
+    # #[regex], #[token], skip (three spellings) or subpattern must be rejected; harmless byte-string patterns accepted
+    import families as F
+    fam = F.fam_c04()
+    fcaps = P.run_capture([c['src'] for c in fam])
+    flines = []
+    for k, c in enumerate(fcaps):
+        if c is not None and not c.nodump:
+            flines += P.case_block('f%d' % k, c, None) + ['Q UTF8CLOSED']
+    fans = P.run_lean(flines, nproc=4) if flines else {}
+    fam_stats = dict(cases=len(fam), rejected=0, accepted=0)
+    for k, (cse, c) in enumerate(zip(fam, fcaps)):
+        if c is None:
+            continue
+        fam_stats['accepted' if c.verdict == 'ACCEPT' else 'rejected'] += 1
+        flags = fans.get('f%d UTF8CLOSED' % k, '').split(' ') if not c.nodump else []
+        if c.verdict == 'ACCEPT' and '0' in flags:
+            run.violation('nonutf8-accepted', dict(definition=cse['src'], family=cse['family'], leaf=flags.index('0'),
+                                                   what='str-mode definition accepted although one of its patterns can match invalid UTF-8 (utf8ClosedB failed with a complete search): '
+                                                        'spans_on_boundaries no longer applies, the lexer can produce spans inside a code point'),
+                          key='nonutf8fam|%s' % cse['src'])
+        elif c.verdict != 'ACCEPT' and cse['meta']['closed']:
+            run.violation('utf8-rejected', dict(definition=cse['src'], family=cse['family'], errors=c.errs[:2],
+                                                what='a str-mode definition whose byte-string patterns only match valid UTF-8 was rejected'),
+                          key='utf8rej|%s' % cse['src'])
+    run.coverage['acceptance_family'] = fam_stats
     n, dis, bad_defs = tie_pass(run, r)
     report_tie(run, r, {k: v for k, v in bad_defs.items() if corpus[k].utf8}, covered=bad)
     run.coverage.update(dict(evaluations=evals, distinct_nontrivial=len(nontriv),
